@@ -12,7 +12,7 @@ from props import c03
 ID = "C13"
 LEAN_MODULES = ["CatiiProps.C13"]
 RULE = ("dimension lists with at least one two- or three-axis index, extra extents 1..4 chosen pairwise different where "
-        "possible (exposes transposed axes), several multi-axis dims at once, some extra-axis positions entirely at the common value (a slice without entries); every aggregate of C03 on both cube types: "
+        "possible (exposes transposed axes), several multi-axis dims at once, scaffolds made of unit axes only ((N,1), (N,1,1), two such dims), some extra-axis positions entirely at the common value (a slice without entries); every aggregate of C03 on both cube types: "
         "result.shape == extra extents (dimension order, then axis order) + category extents (+ fact columns) and every "
         "block result[j1..jm] == the same aggregate over the dims sliced at (j1..jm), computed by the real code on the "
         "1-D slices, and == the direct per-cell computation (Fractions) over those slices - also for an index cube built BEFORE one of its multi-axis dimensions is updated in place; sparse multi-axis dimensions declaring 2^28..2^30 rows (where the index cube turns its thread pool on by itself; 5, 6, 7, 9 sub-cubes) block by block against the cubes of their slices; the model's slices1d labels/slices are compared with the real generator. Non-trivial = at least two "
@@ -212,6 +212,22 @@ def run(ctx):
     reqs, pend = [], []
     for _ in range(ctx.n(25)):
         check(ctx, gen_multi(ctx.rng), reqs, pend)
+    # extra axes that all have extent exactly 1: (N, 1), (N, 1, 1), two such dimensions, one next to a plain one -
+    # the stack is a single block, but the result still carries the unit axes
+    for shapes in ([(1,)], [(1, 1)], [(1,), (1,)], [(1,), ()], [(), (1, 1)]):
+        for _rep in range(2 if ctx.scale == 1 else 6):
+            while True:
+                case = gen_multi(ctx.rng)
+                if len(case["dense"]) == len(shapes) and case["N"] > 0:
+                    break
+            rng, N = ctx.rng, case["N"]
+            for j, hi in enumerate(shapes):
+                extent = rng.randrange(1, 4)
+                d = G.gen_dense(rng, N, extent, hi)
+                c, _ = G.pick_common(rng, d, extent)
+                case["dense"][j], case["commons"][j], case["extents"][j] = d, c, extent
+            ctx.hit("unit_scaffold")
+            check(ctx, case, reqs, pend)
     declared_huge(ctx)
     if ctx.oracle_only:
         return
